@@ -165,6 +165,10 @@ class ResourceManager:
                     raise TypeError("Data rate must be a dict, not {!r}, because {!r} "
                                     "has subsignals"
                                     .format(xdr, subsignal))
+                # The resolved options are stored in new dictionaries, not in the ones given by the caller,
+                # who may use them again for another request.
+                dir = dict(dir)
+                xdr = dict(xdr)
                 for sub in subsignal.ios:
                     sub_dir = "-" if orig_dir == "-" else dir.get(sub.name, None)
                     sub_xdr = xdr.get(sub.name, None)
